@@ -113,7 +113,9 @@ def frexp(x: fp.Float, ctx: fp.Context) -> tuple[fp.Float, fp.Float]:
         e = ctx.round(fp.Float.zero(), exact=True)
         return m, e
     else:
-        x = x.normalize()
+        # `x.e` and the significand scaled to `e=0` do not depend on
+        # how `x` is encoded, so `x` need not be normalized (which
+        # requires `x` to carry a context)
         m = ctx.round(fp.RealFloat(s=x.s, e=0, c=x.c), exact=True)
         e = ctx.round(x.e)
         return m, e
